@@ -1135,7 +1135,7 @@ VARIANTS = [
       '        shard_state.num_shards, shard_state.shard_index, shard_state.start_index',
       'R-C09-2'),
     B('replay-drops-parent', _F,
-      '    if shard_state.parent is not None:\n      result = self.from_state(shard_state.parent)\n    else:\n      result = SequenceDataSource(self.data, ignore_error=self.ignore_error)',
+      '    if shard_state.parent is not None:\n      result = self.from_state(shard_state.parent)\n    else:\n      result = SequenceDataSource(self.data, ignore_error=self.ignore_error)\n      if shard_state == ShardConfig():\n        # The state of the unsharded source itself: sharding it once more would\n        # nest every restored state one level deeper than the recorded one.\n        return result',
       '    result = SequenceDataSource(self.data, ignore_error=self.ignore_error)',
       'R-C09-2'),
     B('record-drops-parent', _F,
